@@ -16,6 +16,7 @@ class Ctx:
         self.repo = repo or factsmod.REPO
         self.facts = factsmod.load_all(self.repo)
         self._paths = {}
+        self._models = {}
         self.steps = 0
         self.npaths = 0
 
@@ -34,10 +35,20 @@ class Ctx:
         return {cfg: {"bodies": f.doc["n_bodies"], "fns": len(f.doc["fns"]), "impls": len(f.doc["impls"]), "adts": len(f.doc["adts"]),
                       "features": f.doc["cfg"], "facts_regenerated_this_run": bool(f.generated)} for cfg, f in self.facts.items()}
 
+    def models(self, cfg):
+        """std models + the resident-bound lists derived from the constructors (room reasoning, DESIGN 3.2)"""
+        if cfg not in self._models:
+            m = absint.Models()
+            self._models[cfg] = m          # bootstrap: constructors are analysed without room reasoning
+            from . import composite
+            m.resident_bound_fields = composite.resident_bound(self, cfg)
+            # paths computed during bootstrap did not need room facts (constructors / len): keep them
+        return self._models[cfg]
+
     def paths(self, cfg, fpath, policy=None, models=None, tag="full"):
         k = (cfg, fpath, tag)
         if k not in self._paths:
-            it = absint.Interp(self.facts[cfg], policy or FullInline(), models)
+            it = absint.Interp(self.facts[cfg], policy or FullInline(), models or self.models(cfg))
             ps = it.run(fpath)
             self.steps += it.steps
             self.npaths += len(ps)
